@@ -1,6 +1,7 @@
 package main
 
 import (
+	"os"
 	"sort"
 	"context"
 	"fmt"
@@ -19,6 +20,7 @@ import (
 
 func init() {
 	commands["C13"] = runC13
+	commands["C13async"] = runC13Async
 }
 
 // tev is one observation of the lister: 0 list start, 1 list end, 2 result consumed.
@@ -344,4 +346,99 @@ func runC13(c *Ctx) {
 	}
 	c.Rep.Rule = "lister+ticker in isolation (verif export) inside a synctest bubble with a fake list client: (period, list latency, consumption delay) on a grid with latency/period in {0,1/4,1/2,1,3/2,2,3,5} and delay/period in {0,1/2,1,2,3}, seeded random triples, stop requests (stop channel / context) swept across the list/tick cycle, and every 1st/2nd/3rd list call failing with {error, context.Canceled, context.DeadlineExceeded, not a list}. Observed: virtual timestamps of list start/end and result consumption, Done after stop, bubble deadlock. Oracles: lists keep being issued (count over the horizon), Done closes at once after stop, no goroutine left blocked; the trace is checked by the model-derived predicate trace_ok (one list at a time, each start >= previous consumption + 0.9 period and after the previous end). Plus the ticker alone (verif export) in virtual time: the delay before a tick is nextPeriod() exactly; 16 periods from 1 ns to 2^44 ns x 20 (400) samples each lie within the bounds proved in binary64 (C13_next_period_ns). Non-trivial = run with >= 3 list calls."
 	c.Rep.Stats["runs"] = runs
+}
+
+// runC13Async: the lister and its ticker in REAL time under the timer-channel
+// semantics of Go before 1.23 (GODEBUG=asynctimerchan=1: a timer that has fired
+// keeps its value in the channel across Stop and Reset unless it is drained).
+// synctest bubbles do not support these timers, and which semantics a program
+// gets is decided by its main module, so both occur in the field.  Parameters
+// are such that the refresh timer has usually fired (tick pending or taken)
+// when the result of a list is consumed and the ticker is reset.  What is
+// checked is coarse on purpose (real time, loaded machines): a list that
+// starts less than HALF a period after the previous result was consumed — a
+// tick from before the reset makes the next list start at once.
+func runC13Async(c *Ctx) {
+	P := 240 * time.Millisecond
+	combos := []struct{ L, D time.Duration }{
+		{300 * time.Millisecond, 0},                      // the list outlasts the period: the timer fires during the list
+		{60 * time.Millisecond, 300 * time.Millisecond},  // the consumer is late: the tick is pending at the hand-over
+		{150 * time.Millisecond, 150 * time.Millisecond}, // both
+		{20 * time.Millisecond, 0},                       // the ordinary case
+	}
+	for _, cb := range combos {
+		what := fmt.Sprintf("real time, timer channels as before Go 1.23: period %v, list latency %v, consumer delay %v", P, cb.L, cb.D)
+		c.Now(what)
+		var mu sync.Mutex
+		var trace []tev
+		start := time.Now()
+		ctx, cancel := context.WithCancel(context.Background())
+		stopch := make(chan struct{})
+		cl := &slowLister{mu: &mu, start: start, trace: &trace, lat: cb.L}
+		l := kcache.NewVerifLister(ctx, qlog.Silent(), stopch, P, cl)
+		quit := make(chan struct{})
+		go func() {
+			for {
+				_, _, ok := l.Recv(quit)
+				if !ok {
+					return
+				}
+				mu.Lock()
+				trace = append(trace, tev{2, time.Since(start)})
+				mu.Unlock()
+				if cb.D > 0 {
+					select {
+					case <-time.After(cb.D):
+					case <-quit:
+						return
+					}
+				}
+			}
+		}()
+		time.Sleep(2600 * time.Millisecond)
+		close(stopch)
+		select {
+		case <-l.Done():
+		case <-time.After(5 * time.Second):
+			c.Violation("", "the lister is not done 5 s after its stop channel closed ["+what+"]", map[string]interface{}{"scenario": what})
+		}
+		close(quit)
+		cancel()
+		mu.Lock()
+		tr := append([]tev(nil), trace...)
+		mu.Unlock()
+		c.Rep.Evaluations++
+		// the consumer writes its timestamp down after the hand-over, possibly a
+		// little after the next list has already started: for every list start
+		// take the latest consumption up to 20 ms after it
+		var cons, sts []time.Duration
+		for _, e := range tr {
+			switch e.kind {
+			case 2:
+				cons = append(cons, e.at)
+			case 0:
+				sts = append(sts, e.at)
+			}
+		}
+		for k, st := range sts {
+			if k == 0 {
+				continue
+			}
+			last := time.Duration(-1)
+			for _, ct := range cons {
+				if ct <= st+20*time.Millisecond && ct > last {
+					last = ct
+				}
+			}
+			if last >= 0 && st-last < P/2 {
+				c.Violation("", fmt.Sprintf("a list started %v after the previous result was consumed (period %v): a tick from before the reset was used [%s]", st-last, P, what),
+					map[string]interface{}{"scenario": what, "trace": encTrace(tr).String(), "godebug": os.Getenv("GODEBUG")})
+				break
+			}
+		}
+		if len(sts) >= 3 {
+			c.DistinctCase(what)
+		}
+	}
+	c.Rep.Rule = "lister + ticker in real time under GODEBUG=asynctimerchan=1 (the timer-channel semantics of Go before 1.23, which synctest does not support): four (latency, consumer delay) combinations around a 240 ms period, 2.6 s each; a list must not start less than half a period after the previous result was consumed (a tick from before the reset makes it start at once)."
 }
